@@ -111,8 +111,8 @@ class Store(Suite):
     name = "store"
     go_cmd = "c20"
     coq_imports = "From GoGit Require Import Model.IndexCache."
-    quick_n = 300
-    thorough_n = 6000
+    quick_n = 250
+    thorough_n = 5000
 
     def gen(self, rng, n, tier):
         return [gen_store(rng) for _ in range(n)]
@@ -221,8 +221,8 @@ class Porc(Suite):
     """worktree operations with injected failures and external rewrites: direct oracle only (no model of the porcelain)"""
     name = "porc"
     go_cmd = "c20"
-    quick_n = 250
-    thorough_n = 5000
+    quick_n = 200
+    thorough_n = 3000
 
     def gen(self, rng, n, tier):
         cases = [gen_porc(rng) for _ in range(n)]
